@@ -2,6 +2,7 @@ package props
 
 import (
 	"fmt"
+	"net/http"
 	"sort"
 	"strings"
 
@@ -26,6 +27,8 @@ type c19Req struct {
 	Accept  string `json:"accept,omitempty"`
 	Body    bool   `json:"body,omitempty"`
 	BodyEnc string `json:"body_content_encoding,omitempty"` // the POST entity is sent gzip- or deflate-coded
+	Form    bool   `json:"form_body,omitempty"`             // application/x-www-form-urlencoded body read with BodyParameter
+	NoCT    bool   `json:"no_content_type,omitempty"`       // POST without a Content-Type (route allows that)
 }
 
 type c19Scen struct {
@@ -71,6 +74,7 @@ func genC19(x *Ctx) *c19Scen {
 	shapes := []struct{ m, p string }{
 		{"GET", "/u/%s"}, {"GET", "/u/%s/sub/k%s"}, {"POST", "/u/%s"}, {"GET", "/v/t%s/items/%s"}, {"PUT", "/u/%s"},
 		{"GET", "/nowhere/%s"}, {"GET", "/u/doc/%s.json"}, {"GET", "/u/num/x%sy"}, {"UNLOCK", "/many/%s"}, {"COPY", "/many/%s"}, {"OPTIONS", "/u/%s"}, {"OPTIONS", "/v/t%s/items/%s"}, {"DELETE", "/v/t%s/items/%s"},
+		{"POST", "/x/form/%s"}, {"POST", "/x/nct/%s"}, {"GET", "/x/err/%s"}, {"POST", "/x/job/%s:cancel"}, {"GET", "/x/job/%s:cancel"}, {"GET", "/x/job/%s"},
 	}
 	tp.Repeat(2, maxSpecs, 650, func(i int) {
 		sh := shapes[tp.G(len(shapes))]
@@ -96,6 +100,8 @@ func genC19(x *Ctx) *c19Scen {
 		if r.Body {
 			r.BodyEnc = []string{"gzip", "", "deflate"}[tp.G(3)]
 		}
+		r.Form = strings.HasPrefix(sh.p, "/x/form/")
+		r.NoCT = strings.HasPrefix(sh.p, "/x/nct/")
 		sc.Specs = append(sc.Specs, r)
 	})
 	nSpecs := len(sc.Specs)
@@ -199,7 +205,10 @@ func c19BuildH(sc *c19Scen, history bool) *restful.Container {
 			e.Sel = fmt.Sprint(sr.Method(), " ", sr.Path(), " consumes=", sr.Consumes(), " deprecated=", sr.Deprecated(), " meta=", len(sr.Metadata()))
 		}
 		e.Hdr = req.HeaderParameter("X-Sim-Tok")
-		if req.Request.Method == "POST" {
+		if req.Request.Method == "POST" && strings.HasPrefix(req.HeaderParameter("Content-Type"), "application/x-www-form-urlencoded") {
+			f, err := req.BodyParameter("f")
+			e.Ent = fmt.Sprint("form:", f, " err=", err, " q=", req.QueryParameters("q"), " id=", req.PathParameter("id"))
+		} else if req.Request.Method == "POST" {
 			// the entity carries the request's own token: a body decoded through another request's
 			// decompressor shows in the echo
 			var ent struct{ Tok string }
@@ -238,9 +247,27 @@ func c19BuildH(sc *c19Scen, history bool) *restful.Container {
 	for _, m := range []string{"GET", "POST", "PUT", "DELETE", "PATCH", "HEAD", "MKCOL", "COPY", "MOVE", "LOCK", "PROPFIND"} {
 		mk(ws3, ws3.Method(m).Path("/{id}"))
 	}
+	// less travelled corners: form bodies, POST without Content-Type, service errors with headers,
+	// custom verbs, the stock no-cache filter
+	ws4 := new(restful.WebService).Path("/x").Produces("application/json", "application/xml")
+	ws4.Filter(restful.NoBrowserCacheFilter)
+	mk(ws4, ws4.POST("/form/{id}").Consumes("application/x-www-form-urlencoded"))
+	mk(ws4, ws4.POST("/nct/{id}").Consumes("application/json").AllowedMethodsWithoutContentType([]string{"POST"}))
+	berr := ws4.GET("/err/{id}").To(func(req *restful.Request, resp *restful.Response) {
+		y(sim.SiteHandler)
+		tok := req.QueryParameter("q")
+		resp.WriteServiceError(409, restful.NewErrorWithHeader(409, "conflict "+tok+" "+req.PathParameter("id"), http.Header{"X-Err": {tok}}))
+	})
+	for i := 0; i < sc.NR; i++ {
+		berr.Filter(mkf("r", i))
+	}
+	ws4.Route(berr)
+	mk(ws4, ws4.POST("/job/{id}:cancel"))
+	mk(ws4, ws4.GET("/job/{id}"))
 	addService(ws1)
 	addService(ws2)
 	addService(ws3)
+	addService(ws4)
 	return c
 }
 
@@ -271,6 +298,13 @@ func (r *c19Req) serveGone(c *restful.Container, entry int, t *sim.Task, id int,
 	if r.Body {
 		hdr["Content-Type"] = "application/json"
 		data := []byte(fmt.Sprintf(`{"Tok":"%s","Pad":"%s"}`, r.Tok, sim.PayloadText(r.Tok, 300)))
+		if r.Form {
+			hdr["Content-Type"] = "application/x-www-form-urlencoded; charset=utf-8"
+			data = []byte("g=1&f=" + r.Tok + "&f=second")
+		}
+		if r.NoCT {
+			delete(hdr, "Content-Type")
+		}
 		switch r.BodyEnc {
 		case "gzip":
 			data = Gzip(data)
